@@ -1,3 +1,6 @@
+//go:build c20dev
+
+// Development aids (not built by bin/check): go test -tags "verif c20dev" -run TestLeaves ./checks/c20
 package c20
 
 import (
